@@ -19,13 +19,13 @@ CHECKS = {
          "For a catalogue of standard, extended and compound queries the async and sync results agree in values, order, paths, parts and exception class on documents with symbolic leaf kinds (strings and scalars in container positions), lengths and presence; also with an async item getter (immediate and suspending) and under symbolic interleavings of two evaluations.",
          "coroutines driven without an event loop; bounded schedules"),
  "C09": ("bounded symbolic execution of cached vs uncached filter evaluation, reuse histories and interleaved lazy iterators",
-         "For 18 queries mixing cacheable and per-node sub-expressions, caching on/off, reuse, a d1,d2,d1 history and two interleaved lazy iterators give identical results on symbolic documents and contexts, and nothing is modified.",
+         "For 22 queries mixing cacheable and per-node sub-expressions, caching on/off, reuse, a d1,d2,d1 history, an evaluation left unfinished followed by another, two interleaved lazy iterators (filtered and plain descendant queries) and re-evaluation of one JSON text after the caller edited the results give identical results on symbolic documents and contexts, and nothing is modified.",
          "Optional[int] leaves; single-threaded; histories of three uses"),
  "C10": ("deterministic compile/str fixed-point obligations plus bounded symbolic execution comparing compile(q) with compile(str(compile(q))) on symbolic documents",
          "For ~200 catalogue queries (logical trees, literals, quoting, regex flags, non-standard identifiers, compound) the string form compiles, is a fixed point, and evaluates identically on documents with symbolic leaves and filter context.",
          "query catalogue is concrete; pooled strings for quoting/regex conditions"),
  "C11": ("bounded symbolic execution of all entry points on one symbolic document, compared with each other and with the union/intersection fold of the operands' own results",
-         "findall/finditer/match/query at environment, compiled and module level agree; compound queries with 2-4 operands equal the left-to-right fold, with symbolic leaf values deciding which intersections are empty; JSON text and file forms agree over pooled leaves.",
+         "findall/finditer/match/query (and the async twins) at environment, compiled and module level agree; compound queries with 2-4 operands equal the left-to-right fold, with symbolic leaf values deciding which intersections are empty; JSON text (blank-space-led too), text-file and binary-file forms agree over pooled leaves, and a second call on the same text is unaffected by what the caller did to the first call's results.",
          "text/file forms are enumeration over pooled leaves (json is a C boundary)"),
  "C04": ("bounded symbolic execution of JSONPointer parse/resolve/exists on symbolic member names and tokens vs an RFC 6901 reference",
          "Every node reachable: a symbolic member name (escape decoding off) or a Sigma name (decoding on and off) placed in four document shapes resolves through its RFC 6901 spelling to that very node; a last token applied to an array, primitive or object resolves exactly when RFC 6901 section 4 can evaluate it, otherwise raises a resolution error / returns the default, and exists() agrees.",
@@ -40,28 +40,28 @@ CHECKS = {
          "Lane R decides for offsets of any number of digits that the draft's prefix is inside the live pattern. Parse-print identity, to() equal to the draft's definition and the three forbidden applications are decided over 7 base shapes x final indices x steps x offsets (incl. multi-digit) x suffixes ('#', escaped, non-ASCII), through RelativeJSONPointer.to and JSONPointer.to.",
          "relative pointer text is rendered from integers and passes through a C regex: solver-driven enumeration over pools"),
  "C15": ("bounded symbolic execution of the patch loader, builder methods, asdicts and Op.apply on symbolic values and documents",
-         "For operation lists of 1-3 of the eight operations: the document form, the builder chain and JSONPatch(p.asdicts()) print the same dicts (given op names) and have the same effect; apply leaves the patch and the caller's list unchanged; a second application gives an equal, structurally independent result, including container values modified by a later operation; addne/addap vs add on 12 targets.",
+         "For operation lists of 1-3 of the eight operations: the document form, the builder chain and JSONPatch(p.asdicts()) print the same dicts (given op names) and have the same effect; apply leaves the patch and the caller's list unchanged; a second application gives an equal, structurally independent result, including container values modified by a later operation; addne/addap vs add on 16 targets (digit-named members included); values include JSON null.",
          "pointer strings concrete (index from a pool of five spellings); lists up to 3 operations"),
  "C20": ("bounded symbolic execution of match.pointer() -> JSONPatch.test/replace/remove -> apply on documents with look-alike member names, vs editing a deep copy by the match's parts",
-         "For every match of a query catalogue on documents whose member names are digits-only, signed look-alikes, '~', '/', empty or non-ASCII (symbolic leaves and array lengths): test with the matched value passes, replace/remove through the match's pointer (object and text form) edit exactly that location and nothing else.",
+         "For every match of a query catalogue on documents whose member names are digits-only, signed look-alikes, '~', '/', empty or non-ASCII (symbolic leaves and array lengths): test with the matched value passes, replace/remove through the match's pointer (object and text form) edit exactly that location and nothing else; also through the async matching route with slices of |step| >= 2, and for two patches applied one after the other to the same JSON text.",
          "member names concrete (fixed set and a 16-name pool)"),
  "C12": ("bounded symbolic execution of the Query methods on a symbolic match sequence vs list slicing, counts concretised from a pool through the solver's path search",
-         "Chains of 1-3 operations (limit/head/first, skip/drop, tail/last, take, tee, first_one/one, last_one) ending in each view are decided on $[*] over a symbolic list of length <= 4 with every count from -1 to length+2, including the remainder after take, the copies after tee and ValueError on negative counts.",
+         "Chains of 1-3 operations (limit/head/first, skip/drop, tail/last, take, tee, first_one/one, last_one) ending in each view are decided on $[*] over a symbolic list of length <= 4 with every count from -1 to length+2, including the remainder after take, the copies after tee and ValueError on negative counts; also on a match sequence in which one node occurs three times.",
          "counts are concretised before reaching itertools/deque (C): exhaustive over the pool, nothing outside it"),
  "C19": ("bounded symbolic execution of Query.select/_patch_obj/_fix_sparse_arrays on symbolic documents vs the projection definitions",
-         "For 40 (match query, relative queries) cases under the three styles on spines with symbolic leaves (0/false/null included), lengths and integer-looking names: flat = selected values in order; relative/root = rank-compacted located values with no other leaves; nothing for non-container matches or empty selections; document unchanged.",
+         "For 46 (match query, relative queries) cases, 14 more with empty containers / JSON-looking strings as leaves and matches, and 19 ancestor-before/after-descendant selections, under the three styles on spines with symbolic leaves (0/false/null included), lengths and integer-looking names: flat = selected values in order; relative/root = rank-compacted located values with no other leaves; nothing for non-container matches or empty selections; document unchanged.",
          "disjoint, per-array ascending selections; selected nodes located by the library's own finditer (decided under C01/C03)"),
  "C03": ("bounded symbolic execution of match construction, canonical_string, pointer derivation and re-compilation of the reported path for every match on a symbolic document",
-         "For every match of a catalogue query: the path matches the RFC 9535 2.7 normalized-path grammar, evaluating it returns exactly that node (identity), parts / pointer / pointer text resolve to it, the parent is one step shorter, paths equal iff nodes equal; member-name text (quotes, backslash, controls, '/', '~', non-BMP) by enumeration over a 35-name pool.",
+         "For every match of a catalogue query: the path matches the RFC 9535 2.7 normalized-path grammar, evaluating it returns exactly that node (identity), parts / pointer / pointer text resolve to it, the parent is one step shorter, paths equal iff nodes equal; member-name text (quotes, backslash, controls, '/', '~', non-BMP) by enumeration over a 36-name pool, through the sync and async matching routes.",
          "member names concrete; name text is enumeration (json.dumps and the lexer are C boundaries)"),
  "C13": ("bounded symbolic execution of each extension spelling next to its standard spelling / documented reference on symbolic documents and filter contexts",
          "66 pairs covering implicit root and bare names, keys selector, fake root, current key, filter context at depth 1-2, in/contains, =~ with each flag, <>, and/or/not, undefined/missing, nil/none/capitalised literals - in lists, after descendant segments and in nested filters - evaluate identically (values, order, locations) on spines with symbolic leaves.",
          "extension query text is a concrete catalogue; regex subjects pooled"),
  "C17": ("deterministic structure/fixed-point obligations through the live lexer of subclassed environments plus bounded symbolic execution comparing custom-token, default-token and recompiled queries",
-         "For 18 concrete token assignments (multi-character, prefix-related) x templates using every identifier: the custom spelling compiles to the default query's structure, its string form recompiles to it and is a fixed point, and all three return the same matches on symbolic documents and filter contexts.",
+         "For 23 concrete token assignments (multi-character, prefix-related in both directions; 14 in the quick tier) x templates using every identifier: the custom spelling compiles to the default query's structure, its string form recompiles to it and is a fixed point, and all three (and the async route) return the same matches on symbolic documents and filter contexts.",
          "token assignments concrete (they are compiled into the lexer regex); spellings colliding with other syntax excluded"),
  "C18": ("solver-driven enumeration (CrossHair path search over option flags and pool indices) of the real argparse definition and sub-command handlers with the operating system stubbed, vs the corresponding library call",
-         "PARTIAL claim. For the path, pointer and patch sub-commands: every combination of the boolean options, expression inline or from a file, output to stdout or a file, document from a file or stdin, over pools of 15 queries / 13 pointers / 12 patches (accepted and rejected by the library) and 5 documents (valid, truncated, empty): accepted inputs write exactly json.dumps of the library result and exit 0; rejected inputs exit 1 with one line on stderr, nothing on stdout and no escaping exception unless --debug. Everything is concretised by the pools: this is enumeration driven by the solver, not symbolic reasoning; it is claimed because it executes the real parser/handlers and decided two real defects.",
+         "PARTIAL claim. For the path, pointer and patch sub-commands: every combination of the boolean options, expression inline or from a file, output to stdout or a file, document from a file or stdin, over pools of 18 queries (multi-line query files included) / 13 pointers / 12 patches (accepted and rejected by the library) and 6 documents (valid, with non-finite numbers, truncated, not UTF-8, a bare string, empty): accepted inputs write exactly json.dumps of the library result and exit 0; rejected inputs exit 1 with one line on stderr, nothing on stdout and no escaping exception unless --debug. Everything is concretised by the pools: this is enumeration driven by the solver, not symbolic reasoning; it is claimed because it executes the real parser/handlers and decided two real defects.",
          "OS stub: argparse.FileType -> in-memory file table, sys.stdin/stdout/stderr -> StringIO, sys.exit observed as SystemExit; real files, encodings, process exit codes and interpreter tracebacks are outside"),
 }
 NA = {
